@@ -120,6 +120,11 @@ class C16(Prop):
         'technique': 'Lean 4 proofs (structural/functional induction, omega) over an executable model; executable spec shared with a differential correspondence check',
     }
 
+    def extract_tables(self, repo):
+        """tie: _iter_text / content_from_reader / _iter_chunks / __repr__ + _quote / the charset work-around, re-read from the tree"""
+        from harness import pycontent2lean
+        return {'TTV/Generated/ContentSrc.lean': pycontent2lean.generate(repo)}
+
     # ------------------------------------------------------------------ implementation side
     def run_impl(self, inp):
         try:
